@@ -82,6 +82,8 @@ structure FinRel (s5 s8 : State) (m : Nat) (v : Int) (saved : Option Nat) : Prop
     ((s8.get i).st = (s5.get i).st ∨
       ((s8.get i).st = .dirty ∧ (s5.get i).st ≠ .clean ∧ i ∈ (s5.get m).subs))
   verUp : ∀ i, i ≠ m → (s8.get i).st ≠ (s5.get i).st → (s5.get m).ver < (s8.get m).ver
+  effD : ∀ i, i ≠ m → (s8.get i).dirty = true → (s5.get i).dirty = true ∨
+    (i ∈ (s5.get m).subs ∧ saved ≠ some i ∧ (s5.get m).ver < (s8.get m).ver)
 
 theorem finish_inv {p : Prog} {s5 s8 : State} {m : Nat} {v : Int} {saved : Option Nat}
     (h5 : InvR p s5) (loc : RunLoc s5 m) (fr : FinRel s5 s8 m v saved)
@@ -230,6 +232,7 @@ theorem finish_inv {p : Prog} {s5 s8 : State} {m : Nat} {v : Int} {saved : Optio
   · intro w e he
     rw [seenE] at he
     exact Nat.le_trans (h5.verLe w e he) (verMono e.1)
+  · intro w a ha; rw [srcE] at ha; rw [kE]; exact h5.srcData w a ha
 
 theorem finish_frame {p : Prog} {s5 s8 : State} {m : Nat} {v : Int} {saved : Option Nat}
     (h5 : InvR p s5) (loc : RunLoc s5 m) (fr : FinRel s5 s8 m v saved) : Frame s5 s8 (m + 1) where
@@ -258,6 +261,14 @@ theorem finish_frame {p : Prog} {s5 s8 : State} {m : Nat} {v : Int} {saved : Opt
     · exact .inl h
     · exact .inr h.1
   log := fr.log
+  effCore i hk := by
+    have him : i ≠ m := by intro e; subst e; rw [loc.kind] at hk; cases hk
+    exact (fr.go i him).1
+  effD i hk hd := by
+    have him : i ≠ m := by intro e; subst e; rw [loc.kind] at hk; cases hk
+    rcases fr.effD i him hd with h | h
+    · exact .inl h
+    · exact .inr ⟨m, (h5.edge m i).1 h.1, h.2.2⟩
 
 /-- store the new value (with the observer restored) -/
 def storeVal (s : State) (id : Nat) (old : Option Int) (saved : Option Nat) (v : Int) : State :=
@@ -324,8 +335,9 @@ theorem finishRun_rel {p : Prog} {s5 : State} {m : Nat} (f : Nat) (old : Option 
       rw [ge, g7o w hwm] at hk ⊢
       exact hsubsNC w hw hk
     have sp := foldl_skip_spec (f + 1) (s7e.get m).subs s7e hc7 hpre
+    have hskipD := foldl_skip_dirty (f + 1) (s7e.get m).subs s7e
     unfold notifySubs
-    generalize (s7e.get m).subs.foldl (fun s x => if s.obs == some x then s else markDirty (f + 1) s x) s7e = s8 at sp
+    generalize (s7e.get m).subs.foldl (fun s x => if s.obs == some x then s else markDirty (f + 1) s x) s7e = s8 at sp hskipD
     have obs7e : s7e.obs = saved := by subst hs7e; exact obs7
     have st8m : (s8.get m).st = .clean := by
       rcases sp.st m with h | h
@@ -333,7 +345,7 @@ theorem finishRun_rel {p : Prog} {s5 : State} {m : Nat} (f : Nat) (old : Option 
       · rw [hsubs7] at h; exact absurd h.2.2.1 hmm
     have verm : (s8.get m).ver = (s5.get m).ver + 1 := by
       rw [sp.rel.ver, ge, g7m]; simp only [hch, if_true]
-    refine ⟨⟨?_, ?_, ?_, ?_, ?_, st8m, ?_, ?_, ?_, ?_, ?_, ?_, ?_⟩, hch.symm, fun _ => by rw [verm]; omega, ?_⟩
+    refine ⟨⟨?_, ?_, ?_, ?_, ?_, st8m, ?_, ?_, ?_, ?_, ?_, ?_, ?_, ?_⟩, hch.symm, fun _ => by rw [verm]; omega, ?_⟩
     · rw [sp.rel.len]; subst hs7e; exact len7
     · rw [sp.rel.obs]; exact obs7e
     · intro hl
@@ -355,6 +367,10 @@ theorem finishRun_rel {p : Prog} {s5 : State} {m : Nat} (f : Nat) (old : Option 
         rw [ge, g7o i hi] at h
         exact ⟨h.1, h.2.1, by rw [← hsubs7]; exact h.2.2.1⟩
     · intro i _ _; rw [verm]; omega
+    · intro i hi hd
+      rcases hskipD i hd with h | h
+      · rw [ge, g7o i hi] at h; exact .inl h
+      · exact .inr ⟨by rw [← hsubs7]; exact h.1, by rw [← obs7e]; exact h.2.1, by rw [verm]; omega⟩
     · intro _ w hw hsv hk
       have hwm : w ≠ m := by intro e; subst e; exact hmm hw
       exact sp.marked w (by rw [hsubs7]; exact hw) (by rw [obs7e]; exact hsv)
@@ -362,9 +378,10 @@ theorem finishRun_rel {p : Prog} {s5 : State} {m : Nat} (f : Nat) (old : Option 
   · rw [if_neg hch]
     have hch' : (old != some v) = false := by simpa using hch
     refine ⟨⟨len7, obs7, fun hl i => by rw [log7]; exact hl i, by rw [g7m], by rw [g7m], by rw [g7m],
-      by rw [g7m], by rw [g7m], by rw [g7m], by rw [g7m], ver7, ?_, ?_⟩, hch'.symm, ?_, ?_⟩
+      by rw [g7m], by rw [g7m], by rw [g7m], by rw [g7m], ver7, ?_, ?_, ?_⟩, hch'.symm, ?_, ?_⟩
     · intro i hi; rw [g7o i hi]; exact ⟨rfl, .inl rfl⟩
     · intro i hi hne; rw [g7o i hi] at hne; exact absurd rfl hne
+    · intro i hi hd; rw [g7o i hi] at hd; exact .inl hd
     · intro h; exact absurd h hch
     · intro h; exact absurd h hch
 
@@ -430,7 +447,7 @@ theorem runMemo_spec {p : Prog} (hp : MemoOK p) {f : Nat} (hu : UpdOK p (upd p f
   have t := startRun_post (s := s0) (m := m) h0.nodup
     (fun i hni hc => hni ((h0.edge i m).1 hc)) hself hm
   obtain ⟨h4, loc4⟩ := startRun_inv h0 t hk hr hst hlow
-  have fr04 := startRun_frame h0 t hst hj
+  have fr04 := startRun_frame h0 t hk hst hj
   obtain ⟨b, hb⟩ := h0.memo_def hk
   have hbody := hp m b hb
   have hbo : bodyOf p m = b := by simp only [bodyOf, hb]
@@ -500,16 +517,27 @@ theorem runMemo_spec {p : Prog} (hp : MemoOK p) {f : Nat} (hu : UpdOK p (upd p f
     intro ρ hρ; rw [hseen5] at hρ; exact hrep ρ hρ
   have h8 := finish_inv ep.inv ep.loc fr hrep' hsaved hH
   have fr58 := finish_frame ep.inv ep.loc fr
-  refine ⟨h8, fr05.trans fr58, fr.obs, ?_, fun _ => fr.st_m, fr.subs_m.trans hsubs5, ?_⟩
+  have hver5 : (s5.get m).ver = (s0.get m).ver := ep.ver.trans (t.ver m)
+  refine ⟨h8, fr05.trans fr58, fr.obs, ?_, fun _ => fr.st_m, fr.subs_m.trans hsubs5, ?_, ?_⟩
   · intro i
     by_cases hi : i = m
     · subst hi; rw [hr]; exact fr.running_m
     · rw [(Node.core_fields (fr.go i hi).1).2.2.2.2.2.1]; exact hrun5 i hi
   · intro hc
     simp only at hc
-    have : (s5.get m).ver = (s0.get m).ver := ep.ver.trans (t.ver m)
-    rw [← this]
+    rw [← hver5]
     exact hverup (by rw [← hflag]; exact hc)
+  · intro o ho hko hd
+    simp only at hd ⊢
+    have hom : o ≠ m := by intro e; subst e; rw [hk] at hko; cases hko
+    have hd5 : (s5.get o).dirty = true := by
+      rcases fr.effD o hom hd with h | h
+      · exact h
+      · exact absurd ho h.2.1
+    rcases fr05.effD o hko hd5 with h | ⟨y, hy, hv⟩
+    · exact .inl h
+    · refine .inr ⟨y, hy, ?_, Nat.lt_of_lt_of_le hv (fr58.verMono y)⟩
+      intro hym; subst hym; omega
 
 /-! ## the `any` loop of `needs_update` -/
 
@@ -665,9 +693,16 @@ theorem restamp_spec {p : Prog} {s : State} {m : Nat} (h : InvR p s) (hk : (s.ge
       exact ⟨e, by rw [(cf i).2.2.2.2.2.2.1]; exact he, by rw [(cf e.1).2.2.2.2.2.2.2.1]; exact hne⟩
     · intro w e he
       rw [(cf w).2.2.2.2.2.2.1] at he; rw [(cf e.1).2.2.2.2.2.2.2.1]; exact h.verLe w e he
-  refine ⟨hinv, ?_, hobs, fun i => (cf i).2.2.2.2.2.1, fun _ => stm, (cf m).2.2.2.1, fun hc => by cases hc⟩
+    · intro w a ha; rw [(cf w).2.2.1] at ha; rw [(cf a).1]; exact h.srcData w a ha
+  have dE : ∀ i, (s'.get i).dirty = (s.get i).dirty := by
+    intro i; by_cases hi : i = m
+    · subst hi; rw [gm]
+    · rw [go i hi]
+  refine ⟨hinv, ?_, hobs, fun i => (cf i).2.2.2.2.2.1, fun _ => stm, (cf m).2.2.2.1, fun hc => (by cases hc),
+    fun o _ _ hd => .inl (by rw [← dE]; exact hd)⟩
   refine ⟨hlen, fun i => (cf i).1, ?_, fun i => by rw [(cf i).2.2.2.2.2.2.2.1]; exact Nat.le_refl _,
-    fun i _ => (cf i).2.2.2.2.2.2.2.1, ?_, fun hl i => by rw [hlog]; exact hl i⟩
+    fun i _ => (cf i).2.2.2.2.2.2.2.1, ?_, fun hl i => by rw [hlog]; exact hl i, fun i _ => hcore i,
+    fun i _ hd => .inl (by rw [← dE]; exact hd)⟩
   · intro i hi
     refine ⟨?_, (cf i).2.1⟩
     by_cases him : i = m
@@ -678,7 +713,7 @@ theorem restamp_spec {p : Prog} {s : State} {m : Nat} (h : InvR p s) (hk : (s.ge
 
 theorem UpdPost.refl {p : Prog} {s : State} {m : Nat} (h : InvR p s)
     (hc : (s.get m).kind = .memo → (s.get m).st = .clean) : UpdPost p s m (s, false) :=
-  ⟨h, Frame.refl s _, rfl, fun _ => rfl, hc, rfl, fun hc => by cases hc⟩
+  ⟨h, Frame.refl s _, rfl, fun _ => rfl, hc, rfl, fun hc => (by cases hc), fun _ _ _ hd => .inl hd⟩
 
 theorem upd_step {p : Prog} (hp : MemoOK p) {f : Nat} (hu : UpdOK p (upd p f) f) :
     UpdOK p (upd p (f + 1)) (f + 1) := by
@@ -713,6 +748,26 @@ theorem upd_step {p : Prog} (hp : MemoOK p) {f : Nat} (hu : UpdOK p (upd p f) f)
       have hk1 : (s1.get m).kind = .memo := by rw [cf.1]; exact hk
       have hr1 : (s1.get m).running = false := by rw [cf.2.2.2.2.2.1]; exact hr
       have fr1 : Frame s s1 (m + 1) := ap.frame.mono (by omega)
+      have hobsD : ∀ (s2 : State), Frame s1 s2 (m + 1) →
+          (∀ o, s1.obs = some o → (s1.get o).kind = .eff → (s2.get o).dirty = true →
+            (s1.get o).dirty = true ∨ ∃ y ∈ (s1.get o).sources, y ≠ m ∧ (s1.get y).ver < (s2.get y).ver) →
+          ∀ o, s.obs = some o → (s.get o).kind = .eff → (s2.get o).dirty = true →
+            (s.get o).dirty = true ∨ ∃ y ∈ (s.get o).sources, y ≠ m ∧ (s.get y).ver < (s2.get y).ver := by
+        intro s2 f12 hob o ho hko hd
+        have hsrc1 : (s1.get o).sources = (s.get o).sources :=
+          (Node.core_fields (ap.frame.effCore o hko)).2.2.1
+        have step1 : (s1.get o).dirty = true → (s.get o).dirty = true ∨
+            ∃ y ∈ (s.get o).sources, y ≠ m ∧ (s.get y).ver < (s2.get y).ver := by
+          intro hd1
+          rcases ap.frame.effD o hko hd1 with h' | ⟨y, hy, hv⟩
+          · exact .inl h'
+          · refine .inr ⟨y, hy, ?_, Nat.lt_of_lt_of_le hv (f12.verMono y)⟩
+            intro hym; subst hym
+            rw [cf.2.2.2.2.2.2.2.1] at hv; exact Nat.lt_irrefl _ hv
+        rcases hob o (ap.obs.trans ho) ((ap.frame.kind o).trans hko) hd with h' | ⟨y, hy, hym, hv⟩
+        · exact step1 h'
+        · rw [hsrc1] at hy
+          exact .inr ⟨y, hy, hym, Nat.lt_of_le_of_lt (ap.frame.verMono y) hv⟩
       by_cases hn : need = true
       · rw [if_pos hn]
         have hnc : (s1.get m).st ≠ .clean := by
@@ -724,7 +779,8 @@ theorem upd_step {p : Prog} (hp : MemoOK p) {f : Nat} (hu : UpdOK p (upd p f) f)
         generalize runMemo p f s1 m = r2 at post
         exact ⟨post.inv, fr1.trans post.frame, post.obs.trans ap.obs,
           fun i => (post.running i).trans (ap.running i), fun _ => post.clean hk1,
-          post.subs.trans cf.2.2.2.1, fun hc => by rw [← cf.2.2.2.2.2.2.2.1]; exact post.ver hc⟩
+          post.subs.trans cf.2.2.2.1, fun hc => (by rw [← cf.2.2.2.2.2.2.2.1]; exact post.ver hc),
+          hobsD r2.1 post.frame post.obsD⟩
       · rw [if_neg hn]
         have hn' : need = false := by simpa using hn
         have ac := ap.allClean hn'
@@ -734,7 +790,7 @@ theorem upd_step {p : Prog} (hp : MemoOK p) {f : Nat} (hu : UpdOK p (upd p f) f)
         generalize (s1.upd m fun n => { n with st := .clean }) = s2 at post
         exact ⟨post.inv, fr1.trans post.frame, post.obs.trans ap.obs,
           fun i => (post.running i).trans (ap.running i), fun _ => post.clean hk1,
-          post.subs.trans cf.2.2.2.1, fun hc => by cases hc⟩
+          post.subs.trans cf.2.2.2.1, fun hc => (by cases hc), hobsD s2 post.frame post.obsD⟩
   · have hk' : ((s.get m).kind != .memo) = true := by
       cases hkk : (s.get m).kind <;> simp_all
     rw [hk']
